@@ -39,6 +39,7 @@ from widegen import WGen
 from c04_util import *
 import c04_ext as XE
 import c04_tagmap as TM
+import c04_frag as FR
 import c02 as C02
 import c01 as C01
 
@@ -928,6 +929,298 @@ def tagmap_layer(run, rng, tier, model):
     return mods
 
 
+
+# --------------------------------------------------------------------------------------------------
+# fragmented PER lengths in every order (lib/c04_frag.py): the reassembly loops of the UPER decoders
+
+D4F = re.compile(r"^(OK|MORE|FAIL|RC\?) (\d+) der=(\S+) ck=(-?\d+) re=(\S+) live=(-?\d+) in=(\d+)/([0-9a-f]{8}) rq=(\S+)$")
+FRAG_FULL = {"Os", "Bs", "In", "Ea", "E0<Ea", "Ca", "Io:1"}       # every sequence of multipliers at the quick tier too
+
+
+def parse_d4f(o):
+    mm = D4F.match(o)
+    if not mm:
+        return None
+    return {"rc": mm.group(1), "consumed": int(mm.group(2)), "der": mm.group(3), "ck": int(mm.group(4)), "re": mm.group(5), "live": int(mm.group(6)),
+            "size": int(mm.group(7)), "in": "%s/%s" % (mm.group(7), mm.group(8)), "rq": [] if mm.group(9) == "-" else mm.group(9).split(",")}
+
+
+def frag_configs(ty, rng, q):
+    """(level, multipliers, wanted final part) for one type: every order of up to K multipliers at each level that has a
+    reassembly loop, the final part at its boundaries in rotation"""
+    out = []
+    salt = rng.below(5)
+    for L, (loop, _) in enumerate(ty.loops):
+        if loop == "none":
+            continue
+        if ty.heavy and q:
+            # lists of 16K..48K elements cost 50..100 ms each: the orders of up to two fragments, at the level of the list
+            # itself (the open type around it is the loop of the string-valued additions, swept there)
+            seqs = FR.sequences(2, 3) if loop == "list" else [[1, 2]]
+        elif ty.heavy:
+            seqs = FR.sequences(3 if loop == "list" else 2, ty.maxsum)
+        elif q:
+            full = ty.name in FRAG_FULL and L == 0
+            seqs = FR.sequences(3 if full else 2, ty.maxsum)
+            pool = [s for s in FR.sequences(4, ty.maxsum + 4) if s not in seqs]
+            seqs = seqs + [pool[rng.below(len(pool))] for _ in range(6 if full else 8)]
+        else:
+            seqs = FR.sequences(4 if (ty.name in FRAG_FULL and L == 0) else 3, ty.maxsum + 4)
+            if len(seqs) < 300:
+                pool = [s for s in FR.sequences(4, ty.maxsum + 4) if s not in seqs]
+                seqs = seqs + [pool[rng.below(len(pool))] for _ in range(40)]
+        for i, ms in enumerate(seqs):
+            # the final part depends on the SUM of the multipliers (all orders of the same fragments then carry the same value
+            # and share one largest-first reference line); every seventh configuration has a random one of its own
+            fin = FR.FINALS[(sum(ms) + L + salt) % len(FR.FINALS)] if i % 7 != 6 else rng.range(2, FR.FRAG - 2)
+            out.append((L, list(ms), fin))
+    return out
+
+
+def random_composition(total, rng):
+    out = []
+    while total > 0:
+        m = rng.range(1, min(4, total))
+        out.append(m)
+        total -= m
+    return rng.shuffle(out)
+
+
+def frag_layer(run, rng, tier, model):
+    q = tier == "quick"
+    m = FR.module()
+    build_modules([m], tag="frag", moddrv_extra=INC, extra_ldflags=WRAP)
+    if not m.get("exe"):
+        run.violation("build:module", {"what": "the module of the fragmentation layer was rejected or its code does not compile", "module": m["text"],
+                                       "asn1c_out": m.get("asn1c_out", "")[-1200:], "build_log": m.get("build_log", "")[-1200:]}, no_input=True)
+        return 0
+    tlog("frag: module built")
+    lines, metas = [], []
+    refs = {}
+
+    def put(ty, pat, n, fr, kind, cut=-1, tail=b"", **kw):
+        tree = ty.tree(n)
+        if not FR.consistent(tree, fr):
+            run.count("frag_config_dropped")
+            return None
+        prog, nb, marks = FR.program(tree, fr)
+        size = (nb + 7) // 8
+        if cut >= size:
+            return None
+        lines.append("d4f %s uper %s %s %d %s" % (ty.reader, pat.hex(), prog, cut, hexs(tail)))
+        me = dict({"ty": ty, "tn": ty.reader, "syn": "uper", "kind": kind, "n": n, "fr": fr, "prog": prog, "pat": pat, "base": size if cut < 0 else cut, "cut": cut, "tail": tail,
+                   "marks": marks, "full": size, "data": b"", "orig": b"", "idx": len(metas)}, **kw)
+        metas.append(me)
+        return me
+
+    for ty in FR.TYPES:
+        # a pattern of prime length: the contents of two fragments never coincide, a fragment stored at the wrong
+        # place gives another value
+        pat = bytes(rng.below(ty.patmax + 1) for _ in range(251))
+        cfgs = frag_configs(ty, rng, q)
+        # both (all) levels out of order at once
+        if ty.nlevels > 1 and not ty.heavy:
+            for _ in range(4 if q else 24):
+                cfgs.append(("all", None, None))
+        for ci, (L, ms, fin) in enumerate(cfgs):
+            if L == "all":
+                inner = max(i for i, (lp, _) in enumerate(ty.loops) if lp != "none")
+                sol = FR.solve(ty, inner, random_composition(rng.range(1, 8), rng), rng.choice(FR.FINALS + [rng.range(2, FR.FRAG - 2)]))
+                if not sol:
+                    continue
+                n = sol[0]
+                fr = {}
+                for lv in range(ty.nlevels - 1, -1, -1):
+                    if ty.loops[lv][0] == "none":
+                        continue
+                    u = FR.level_units(ty.tree(n), lv, fr)
+                    f = u % FR.FRAG
+                    fr[lv] = (random_composition(u // FR.FRAG, rng), f, FR.form_of(f))
+                kind = "valid-all-levels"
+            else:
+                sol = FR.solve(ty, L, ms, fin)
+                if not sol:
+                    run.count("frag_no_solution")
+                    continue
+                n, f = sol
+                fr = {L: (ms, f, FR.form_of(f))}
+                kind = "canonical" if FR.is_canonical(*fr[L]) else "valid"
+            if (ty.name, n) not in refs:
+                refs[(ty.name, n)] = put(ty, pat, n, {}, "canonical")
+            if kind == "canonical":
+                continue
+            me = put(ty, pat, n, fr, kind, level=L)
+            if me is None:
+                continue
+            run.count("frag_%s_L%s_k%d" % (ty.name, L, len(ms) if ms else 0))
+            if L != "all" and f < 128 and ci % 3 == 0:
+                put(ty, pat, n, {L: (ms, f, "l")}, "valid-longform", level=L)        # the final length in its two-octet form
+            if not (ty.heavy and q and ci % 2):
+                put(ty, pat, n, fr, "tail", tail=[b"\x00", b"\xff", rng.bytes(3)][ci % 3], level=L)
+            if L != "all" and ci % 4 == 1 and not ty.heavy:
+                # a multiplier X.691 11.9.3.8 prohibits (0, 5..) in place of one of the fragments: never accepted
+                j = rng.below(len(ms))
+                bad = ms[:j] + [rng.choice([0, 5, 6, 9])] + ms[j + 1:]
+                sol2 = FR.solve(ty, L, bad, f)
+                if sol2:
+                    put(ty, pat, sol2[0], {L: (bad, sol2[1], FR.form_of(sol2[1]))}, "badmult", level=L)
+            cps = FR.cut_points(me["marks"], me["full"])
+            if q or ty.heavy or len(ms or []) > 2:
+                k = (1 if ty.heavy else (3 if ty.name in FRAG_FULL else 2)) if q else 8
+                cps = [cps[(ci * k + j * 3) % len(cps)] for j in range(k)] if cps else []
+            for c in sorted(set(cps)):
+                put(ty, pat, n, fr, "trunc", cut=c, level=L)
+    tlog("frag: %d lines generated" % len(lines))
+    if os.environ.get("C04_DUMP_FRAG"):
+        open(os.environ["C04_DUMP_FRAG"], "w").write("".join("%s %s %s\n" % (me["ty"].name, me["kind"], l) for l, me in zip(lines, metas)))
+    # heavy lines (lists of 16K..64K elements) are spread evenly: chunks are slices of the list
+    order = sorted(range(len(lines)), key=lambda i: (i * 7919) % len(lines)) if lines else []
+    (co, ce), = run_many([(m["exe"], [lines[i] for i in order])], per_chunk=20, timeout=(300 if q else 1500), max_deaths=40)
+    outs = [None] * len(lines)
+    errs = {}
+    for pos, i in enumerate(order):
+        outs[i] = co[pos]
+        if pos in ce:
+            errs[i] = ce[pos]
+    tlog("frag: C side done, %d process deaths" % len(errs))
+    # the Python expander against the C one, on the shortest inputs of every type
+    sample = {}
+    for i, me in enumerate(metas):
+        if me["cut"] < 0 and not me["tail"]:
+            sample.setdefault(me["ty"].name, []).append((me["full"], i))
+    check_exp = set()
+    for name, xs in sample.items():
+        xs.sort()
+        check_exp.update(i for _, i in xs[:(4 if q else 12)])
+    results = [None] * len(lines)
+    expder = {}
+    for i, (l, o, me) in enumerate(zip(lines, outs, metas)):
+        run.case("d4f %s %s %d %s" % (me["tn"], me["prog"], me["cut"], hexs(me["tail"])))
+        ty = me["ty"]
+        run.count("fmut_" + me["kind"])
+        rep = {"module": m["text"], "type": me["tn"], "writer": ty.name, "syntax": "uper", "mutation": me["kind"], "command_line": l, "c": o,
+               "fragmentation": {str(k): "%s + %d (%s)" % ("".join("C%d " % x for x in v[0]).strip() or "-", v[1], v[2]) for k, v in me["fr"].items()},
+               "content_units": me["n"], "replay_cmd": "echo '<command_line>' | <moddrv of module FR built with harness/moddrv_c04.inc>"}
+        if i in errs and errs[i][0] == "CRASH":
+            if errs[i][1] == -1 and "not run" in errs[i][2]:
+                run.count("frag_not_run_after_too_many_deaths")
+                continue
+            report_crash(run, m, l, me, errs[i], "frag")
+            continue
+        o = o.replace(" ATEXIT", "")
+        if i in errs:
+            report_crash(run, m, l, dict(me, kind="exit"), errs[i], "frag")
+        if o == "BADPROG":
+            run.violation("harness:frag:program", dict(rep, what="the driver rejects a program of lib/c04_frag.py"), no_input=True)
+            continue
+        r = parse_d4f(o)
+        if r is None:
+            run.violation("oracle:frag:result-line", dict(rep, what="decoder returned a code outside RC_OK/RC_WMORE/RC_FAIL or the driver line is malformed"))
+            continue
+        results[i] = r
+        run.count("frag_uper_%s" % r["rc"])
+        if r["consumed"] > r["size"]:
+            run.violation("oracle:frag:consumed>size", dict(rep, what="consumed %d > size %d" % (r["consumed"], r["size"])))
+        if r["live"] != 0:
+            run.violation("oracle:frag:leak", dict(rep, what="%d block(s) still live after ASN_STRUCT_FREE of the %s result" % (r["live"], r["rc"])))
+        if r["size"] != me["base"] + len(me["tail"]):
+            run.violation("harness:frag:expander", dict(rep, what="the driver built %d octets, lib/c04_frag.py computed %d" % (r["size"], me["base"] + len(me["tail"]))), no_input=True)
+            continue
+        if i in check_exp:
+            py = FR.expand(me["prog"], me["pat"])
+            run.count("frag_expander_cross_checked")
+            if FR.crc(py) != r["in"]:
+                run.violation("harness:frag:expander", dict(rep, what="the driver's expansion of the program differs from lib/c04_frag.expand (%s against %s)" % (r["in"], FR.crc(py))), no_input=True)
+                continue
+            if me["kind"] == "canonical" and ty.canon_re and r["rc"] == "OK" and r["re"] != r["in"]:
+                run.violation("oracle:frag:canonical-form", dict(rep, what="the encoder's output for the decoded value (%s) is not the largest-first fragmentation built by lib/c04_frag.py (%s)" % (r["re"], r["in"])))
+        if me["kind"] == "badmult":
+            if r["rc"] == "OK":
+                run.violation("oracle:frag:prohibited-multiplier", dict(rep, what="a length determinant with a fragment multiplier outside 1..4 is accepted (RC_OK)"))
+            continue
+        if me["kind"] == "trunc":
+            run.count("frag_prefix_%s" % r["rc"])
+            if r["rc"] == "OK":
+                run.violation("oracle:frag:prefix-accepted", dict(rep, what="a proper prefix (%d of %d octets) of a valid encoding decoded with RC_OK" % (me["cut"], me["full"])))
+            continue
+        # valid encodings (X.691 11.9.3.8 fixes no order of the multipliers for a receiver): accepted, all consumed, the value built in
+        if not (r["rc"] == "OK" and r["consumed"] == me["base"]):
+            run.violation("oracle:frag:valid-not-accepted", dict(rep, what="a valid encoding (%s fragmentation) is answered %s, %d of %d octets consumed" % (me["kind"], r["rc"], r["consumed"], me["base"])))
+            continue
+        if ty.der is not None:
+            if (ty.name, me["n"]) not in expder:
+                expder[(ty.name, me["n"])] = FR.crc(ty.der(FR.content_units(me["pat"], me["n"], ty.ub)))
+            exp = expder[(ty.name, me["n"])]
+            if r["der"] != exp:
+                run.violation("oracle:frag:value", dict(rep, what="RC_OK, but the value is not the one the fragments hold: DER (length/CRC-32) %s, built in: %s" % (r["der"], exp)))
+                continue
+    # ---- faithfulness of coq/Rt/SafetyFrag.v: what the C asked of realloc() while it decoded = the requests of the modelled
+    # loops run on the chunk sizes of every level (outermost first: an open type is collected whole before its contents are decoded)
+    def level_chunks(me, lv):
+        ty = me["ty"]
+        tree = ty.tree(me["n"])
+        f = me["fr"].get(lv)
+        if f is None:
+            f = FR.canonical(FR.level_units(tree, lv, me["fr"]))
+        return FR.chunks_of(f[0], f[1])
+
+    def model_cmds(me):
+        cmds = []
+        for lv, (loop, bpc) in enumerate(me["ty"].loops):
+            cs = level_chunks(me, lv)
+            if loop == "ot":
+                cmds.append("fragot " + ",".join(str(c) for c in cs))
+            elif loop in ("str", "int"):
+                cmds.append("fragstr %d %s" % (1 if loop == "str" else 0, ",".join(str(c * bpc if bpc else (c + 7) // 8) for c in cs)))
+            elif loop == "list":
+                cmds.append("fragarr %d" % sum(cs))
+        return cmds
+    tie = [(i, model_cmds(me)) for i, me in enumerate(metas) if results[i] is not None and me["kind"] not in ("trunc", "badmult") and results[i]["rc"] == "OK"]
+    distinct = sorted(set(c for _, cs in tie for c in cs))
+    mans = dict(zip(distinct, model_par(model, distinct))) if distinct else {}
+    tlog("frag: model done (%d distinct loop runs)" % len(distinct))
+    for i, cmds in tie:
+        r, me = results[i], metas[i]
+        exp, inb = [], True
+        for c in cmds:
+            a = mans[c]
+            mm = re.search(r"rq=(\S+) w=([01])$", a)
+            if not mm:
+                exp, inb = None, a
+                break
+            inb = inb and mm.group(2) == "1"
+            exp += [] if mm.group(1) == "-" else [int(x) for x in mm.group(1).split(",")]
+        run.count("frag_model_tie")
+        rep = {"type": me["tn"], "writer": me["ty"].name, "command_line": lines[i], "c": outs[i], "model_lines": cmds, "model": [mans[c] for c in cmds], "module": m["text"]}
+        if exp is None or inb is not True:
+            run.violation("model:frag:bounds", dict(rep, what="Rt/SafetyFrag.v reports a store outside its block (excluded by C04_frag_*_writes_in_bounds) or an unreadable answer"), no_input=True)
+            continue
+        exp = [str(x) for x in exp if x >= 1024]
+        if "more" in r["rq"]:
+            run.count("frag_model_tie_trace_too_long")
+        elif r["rq"] != exp:
+            run.violation("model:frag:realloc-trace", dict(rep, what="the sizes the C asks of realloc() while it reassembles the fragments (%s) are not those of the modelled loops (%s)" % (",".join(r["rq"]) or "-", ",".join(exp) or "-")),
+                          no_input=True)
+    # the same value in every fragmentation: return code, DER, constraint verdict and re-encoding of the canonical order
+    for i, me in enumerate(metas):
+        r = results[i]
+        if r is None or me["kind"] in ("trunc", "canonical", "badmult"):
+            continue
+        ref = refs.get((me["ty"].name, me["n"]))
+        rr = results[ref["idx"]] if ref is not None else None
+        if rr is None:
+            run.count("frag_no_reference")
+            continue
+        a, b = (r["rc"], r["der"], r["ck"], r["re"]), (rr["rc"], rr["der"], rr["ck"], rr["re"])
+        if a != b:
+            run.violation("oracle:frag:order-dependent", {"what": "the answer depends on how the contents are cut into fragments: %s for this input, %s for the largest-first fragmentation of the same value" % (a, b),
+                                                          "type": me["tn"], "command_line": lines[i], "c": outs[i], "canonical": outs[ref["idx"]], "module": m["text"]})
+        else:
+            run.count("frag_same_as_canonical")
+    run.sample({"frag_lines": len(lines), "first": lines[0][:160] if lines else "", "c": outs[0] if outs else ""})
+    return len(lines)
+
+
 def leaf_layer(run, rng, tier, model):
     """the four skip functions alone (harness/leafdrv_c04.inc against coq/Rt/SafetySkip.v): model = C line by line,
     and the property read off the C's answer: a positive count is within the size, the answer known from the way
@@ -1038,6 +1331,7 @@ def main(tier):
         nleaf = leaf_layer(run, Rng(run.seed * 7919 + 1), tier, model) if only in ("", "leaf", "ext") else 0
         xmods = ext_layer(run, Rng(run.seed * 7919 + 2), tier, model) if only in ("", "ext") else []
         tmods = tagmap_layer(run, Rng(run.seed * 7919 + 3), tier, model) if only in ("", "tagmap") else []
+        nfrag = frag_layer(run, Rng(run.seed * 7919 + 4), tier, model) if only in ("", "frag") else 0
         mods = model_layer(run, rng, tier, model) if (only == "" and not os.environ.get("C04_ONLY_WIDE")) else []
         wmods = wide_layer(run, rng, tier) if only in ("", "wide") else []
     except BuildError as e:
@@ -1054,7 +1348,7 @@ def main(tier):
           "gcc 12 -O1 with ASan + UBSan + LSan: memory safety / UB / leaks of the C are OBSERVED on the generated inputs, not proved"]
     return run.finish("proof", (nthm, ndis), trusted_base=tb,
                       checker_cmd="make -C /verif all && coqc -Q coq A1 coq/Props/Properties_C04.v",
-                      extra_cov={"theorems": names, "modules": len(mods), "wide_modules": len(wmods), "ext_modules": len(xmods), "tagmap_modules": len(tmods), "leaf_lines": nleaf,
+                      extra_cov={"theorems": names, "modules": len(mods), "wide_modules": len(wmods), "ext_modules": len(xmods), "tagmap_modules": len(tmods), "leaf_lines": nleaf, "frag_lines": nfrag,
                                  "rule": "one case = one `d4` / `d4x` / `d4m` command (type, syntax, input octets), one `tmapok` table check, or one leaf command (skiplen / uskip / oskip / xskip / xskiprun); inputs are distinct per (type, syntax); mutants of valid DER/UPER/OER/XER encodings (truncation at every offset, tag/length octet bit flips, length forms, re-framings, splice, text damage), random strings, deep-nesting inputs; extensible-type layer: every encoding of a newer family member read by every member, every prefix, frame cuts, end-of-contents damage; member-lookup layer: structural faults at the member level (dupadj dupalt dupdist swap early late reprun all2 del foreign otheralt) of values of shapes that select each lookup branch, XER element re-arrangements, UPER/OER leading-octet bit flips",
                                  "traces_validated_against_impl": run.cov["evaluations"]},
                       assumptions=["PARTIAL: the theorems are about the Gallina reference decoders (consumed accounting, bounds, fuel, shape); memory safety, UB-freedom and leak-freedom of the compiled C are observed with sanitizers on the mutated inputs only",
